@@ -4,8 +4,11 @@ Correspondence: Model/Regress.v vs tensorly/regression/{cp_regression,tucker_reg
   * after a real fit: the exposed float64 attributes are read as exact rationals; the model computes
     weight_tensor_ / vec_W_ from the factors and predict(X) from weight_tensor_ / vec_W_ in Q (1e-9);
     CP_PLSR X_mean_ / transform (X and Y branch) / predict from the fitted attributes in 70-bit fixed point (1e-9)
-  * the whole of CP_PLSR.fit (inner power iteration, deflations, coefficients) with pinned pass counts, the answers
-    of initialize_cp and lstsq recorded from the implementation, in 70-bit fixed point (1e-8)
+  * the whole of CP_PLSR.fit (inner power iteration, deflations, coefficients) with pinned pass counts and run to
+    convergence with a margin-checked tolerance, the answers of initialize_cp and lstsq recorded from the
+    implementation, in 70-bit fixed point (1e-8)
+  * the fit loop of CPRegressor (concrete ridge blocks, T.solve answers certified) and TuckerRegressor (played back)
+    on a tape of iterates: which iterate a run with a given (n_iter_max, tol) stores (1e-8)
 Predicates (implementation only): the statements of the property, see reg_predicates / plsr_predicates.
 A per-call timeout (loaded machine) skips the case; a vacuity guard fails the check when most constructed
 well-posed problems do not give a finite fit."""
@@ -409,6 +412,45 @@ def plsr_fit_problems(tier, rng):
     return probs
 
 
+def plsr_conv_problems(tier, rng):
+    """the same small problems run to convergence with a real tolerance (n_iter_max = 100): the model follows the
+    stopping test; a case is compared only where the model's decisions have a factor-2 margin (decided in Coq)"""
+    want = 12 if tier == "quick" else 100
+    probs = []
+    while len(probs) < want:       # a single-column Y converges in one pass: keep the problems with >= 2 columns
+        probs += [p for p in plsr_fit_problems(tier, rng) if np.ndim(p["y"]) == 2 and p["y"].shape[1] >= 2]
+    probs = probs[:want]
+    for k, p in enumerate(probs):
+        p["tol"] = None          # chosen from a pilot, see plsr_conv_tol
+        p["n_iter"] = 100
+        p["ctor"] = "KPlsrFitConv"
+        p["kind"] = "plsr_conv"
+        if k % 3:
+            p["ncomp"] = 1
+    return probs
+
+
+PILOT = 9
+
+
+def plsr_conv_tol(p):
+    """pilot: the Y scores of the first component after 1..PILOT passes (tol = 0) give the distances the stopping
+    test sees; pick a tolerance in the widest gap between two consecutive distances (>= 3 passes needed, factor >= 2; the model asks for a margin of 1.25 on both sides)"""
+    us = []
+    for k in range(1, PILOT + 1):
+        st, r = call(fit_plsr_opts, p["X"], p["y"], 1, k, 0.0)
+        if st != "ok" or not finite_ok(r.Y_factors[0]):
+            return None
+        us.append(np.asarray(r.Y_factors[0], dtype=np.float64)[:, 0])
+    d = {k: float(np.linalg.norm(us[k - 1] - us[k - 2])) for k in range(2, PILOT + 1)}     # test made in pass k
+    best = None
+    for j in range(3, PILOT + 1):
+        before = min(d[k] for k in range(2, j))
+        if d[j] > 1e-13 and before > 2 * d[j] and (best is None or before / d[j] > best[0]):
+            best = (before / d[j], float(np.sqrt(before * d[j])))
+    return None if best is None else best[1]
+
+
 def fit_plsr_opts(X, Y, ncomp, n_iter, tol):
     from tensorly.regression.cp_plsr import CP_PLSR
     return CP_PLSR(n_components=ncomp, tol=tol, n_iter_max=n_iter, random_state=0).fit(X.copy(), Y.copy())
@@ -420,6 +462,10 @@ def plsr_fit_case(p):
     from the exposed factors with the deflation formula of the source)."""
     from tensorly.decomposition._cp import initialize_cp
     X, Y, ncomp = p["X"], p["y"], p["ncomp"]
+    if p.get("ctor") == "KPlsrFitConv" and p["tol"] is None:
+        p["tol"] = plsr_conv_tol(p)
+        if p["tol"] is None:
+            return "no-margin", None
     st, r = call(fit_plsr_opts, X, Y, ncomp, p["n_iter"], p["tol"])
     if st != "ok":
         return "fit-raised", None
@@ -459,8 +505,92 @@ def plsr_fit_case(p):
     e_scores = lst(C.q_list(Xf[0][:, c].tolist()) for c in range(ncomp))
     e_yloads = lst(qt(Yf[1][:, c]) for c in range(ncomp))
     e_yscores = lst(C.q_list(Yf[0][:, c].tolist()) for c in range(ncomp))
-    case = (f"KPlsrFit {C.nat(p['n_iter'])} {C.nat(ncomp)} {C.q(min(p['tol'], 1e30))} {lst(itape)} {btape} {qt(X)} {qt(Y2)} "
+    case = (f"{p.get('ctor', 'KPlsrFit')} {C.nat(p['n_iter'])} {C.nat(ncomp)} {C.q(min(p['tol'], 1e30))} {lst(itape)} {btape} {qt(X)} {qt(Y2)} "
             f"{e_loads} {e_scores} {e_yloads} {e_yscores}")
+    return "ok", case
+
+
+# ----------------------------------------------------------------------------- the regressors' fit loop
+def loop_problems(tier, rng):
+    probs = []
+    nfit = 10 if tier == "quick" else 80
+    for k in range(nfit):
+        kind = "cp_loop" if k % 3 != 2 else "tucker_loop"
+        order = rng.choice([2, 2, 3])
+        sx = tuple(rng.randint(2, 3) for _ in range(order))
+        n = rng.randint(3, 6)
+        if kind == "cp_loop":
+            so = rng.choice([(), (), (2,), (3,), (2, 2)])
+            rank = rng.randint(1, 2)
+        else:
+            so = ()
+            rank = [rng.randint(1, 2) for _ in sx]
+        reg = rng.choice([0.05, 0.5, 1, 3.0])
+        X = dyadic(rng, (n,) + sx, denom=16, lo=-48, hi=48)
+        y = dyadic(rng, (n,) + so, denom=16, lo=-48, hi=48)
+        probs.append(dict(kind=kind, X=X, y=y, rank=rank, reg=reg, seed=rng.randint(0, 10 ** 6), mode=(k // 3 + k) % 3 if k % 4 else 2,
+                          n_iter=rng.randint(1, LOOP_K)))
+    return probs
+
+
+def fit_loop(p, n_iter, tol):
+    from tensorly.regression.cp_regression import CPRegressor
+    from tensorly.regression.tucker_regression import TuckerRegressor
+    if p["kind"] == "cp_loop":
+        r = CPRegressor(weight_rank=p["rank"], tol=tol, reg_W=p["reg"], n_iter_max=n_iter, random_state=p["seed"], verbose=0)
+    else:
+        r = TuckerRegressor(weight_ranks=list(p["rank"]), tol=tol, reg_W=p["reg"], n_iter_max=n_iter, random_state=p["seed"], verbose=0)
+    return r.fit(p["X"].copy(), p["y"].copy())
+
+
+LOOP_K = 6
+
+
+def loop_case(p):
+    """tape of iterates from runs with n_iter_max = 1..K and a tolerance that never stops (-1); then one run with a
+    stopping rule chosen with a margin from the observed norm evolution: never (mode 0), always from the third pass on
+    (mode 1), or at a later pass when the evolution values leave room (mode 2)"""
+    cp = p["kind"] == "cp_loop"
+    its, norms = [], []
+    for k in range(1, LOOP_K + 1):
+        st, r = call(fit_loop, p, k, -1.0)
+        if st != "ok":
+            return "fit-raised", None
+        blocks = r.cp_weight_ if cp else r.tucker_weight_
+        arrs = [np.asarray(f, dtype=np.float64) for f in blocks[1]] + ([] if cp else [np.asarray(blocks[0], dtype=np.float64)])
+        if not finite_ok(np.asarray(r.weight_tensor_), *arrs):
+            return "non-finite", None
+        its.append(blocks)
+        norms.append(float(np.linalg.norm(np.asarray(r.weight_tensor_))))
+    if min(norms) < 1e-6:
+        return "ill-conditioned", None
+    ev = {k: abs(norms[k - 1] - norms[k - 2]) / norms[k - 1] for k in range(3, LOOP_K + 1)}   # test made in pass k (1-based)
+    N, tol = p["n_iter"], -1.0
+    if p["mode"] == 1:
+        N, tol = LOOP_K, 1e9
+    elif p["mode"] == 2:
+        N = LOOP_K
+        tol = 1e9
+        for j in range(4, LOOP_K + 1):
+            before = min(ev[k] for k in range(3, j))
+            if ev[j] > 0 and before > 2 * ev[j]:
+                tol = float(np.sqrt(before * ev[j]))
+                break
+    st, r = call(fit_loop, p, N, tol)
+    if st != "ok":
+        return "fit-raised", None
+    eW = np.asarray(r.weight_tensor_, dtype=np.float64)
+    qtol = C.q(max(min(tol, 1e30), -1.0))
+    if cp:
+        tape = lst(lst(qt(f) for f in b[1]) for b in its)
+        so = tuple(p["y"].shape[1:])
+        R = p["rank"]
+        case = (f"KCpLoop {C.nat(N)} {qtol} {C.q(float(p['reg']))} {C.nat(R)} {C.nat_list(so)} {qt(p['X'])} {qt(p['y'])} {tape} "
+                f"{qt(eW)} {lst(qt(f) for f in r.cp_weight_[1])}")
+    else:
+        tape = lst(f"({qt(b[0])}, {lst(qt(f) for f in b[1])})" for b in its)
+        case = f"KTkLoop {C.nat(N)} {qtol} {tape} {qt(eW)}"
+    p["chosen"] = {"n_iter_max": N, "tol": tol}
     return "ok", case
 
 
@@ -550,22 +680,28 @@ def run(chk):
                             "predict != contraction of each sample with the weights over the non-sample modes (exact, integers)", "C19_predict_is_contraction")
     # 2. fitted regressors and PLSR
     problems = load_corpus() + reg_problems(chk.tier, rng) + plsr_problems(chk.tier, rng)
-    fit_problems = plsr_fit_problems(chk.tier, rng)
+    fit_problems = plsr_fit_problems(chk.tier, rng) + plsr_conv_problems(chk.tier, rng) + loop_problems(chk.tier, rng)
     skipped = 0
     for p in fit_problems:
         try:
-            status, c = plsr_fit_case(p)
+            status, c = loop_case(p) if p["kind"].endswith("_loop") else plsr_fit_case(p)
         except Skip:
             status, c = "timeout-skipped", None
-        chk.hist("fit_status_plsr_fit", status)
+        chk.hist("fit_status_" + p["kind"], status)
         if c is None:
             skipped += 1
             continue
         cases.append(f"({len(cases)}%nat, {c})")
-        meta.append({"kind": "plsr_fit", "case": "KPlsrFit", "X_shape": list(p["X"].shape), "y_shape": list(np.shape(p["y"])),
+        if p["kind"].endswith("_loop"):
+            meta.append({"kind": p["kind"], "case": c.split(" ", 1)[0], "X_shape": list(p["X"].shape), "y_shape": list(np.shape(p["y"])),
+                         "params": {k: p[k] for k in ("rank", "reg", "seed", "chosen")}, "problem": describe(p)})
+            chk.count(key=(p["kind"], p["X"].shape, np.shape(p["y"]), str(p["rank"]), str(p["chosen"])), nontrivial=True)
+            chk.hist("case", c.split(" ", 1)[0]); chk.hist("loop_stop_rule", "never" if p["chosen"]["tol"] < 0 else ("third pass" if p["chosen"]["tol"] > 1e8 else "margin-chosen tol"))
+            continue
+        meta.append({"kind": p["kind"], "case": p.get("ctor", "KPlsrFit"), "X_shape": list(p["X"].shape), "y_shape": list(np.shape(p["y"])),
                      "params": {k: p[k] for k in ("ncomp", "n_iter", "tol")}, "problem": describe(p)})
-        chk.count(key=("plsr_fit", p["X"].shape, np.shape(p["y"]), p["ncomp"], p["n_iter"], p["tol"]), nontrivial=True)
-        chk.hist("case", "KPlsrFit"); chk.hist("plsr_fit_passes", f"n_iter_max={p['n_iter']} tol={p['tol']}")
+        chk.count(key=(p["kind"], p["X"].shape, np.shape(p["y"]), p["ncomp"], p["n_iter"], p["tol"]), nontrivial=True)
+        chk.hist("case", p.get("ctor", "KPlsrFit")); chk.hist("plsr_fit_passes", f"n_iter_max={p['n_iter']} tol={p['tol']}")
     for p in problems:
         try:
             status, bad, cs, comparable = eval_problem(p)
@@ -589,9 +725,9 @@ def run(chk):
                          "params": {k: v for k, v in p.items() if k in ("rank", "reg", "seed", "n_iter", "ncomp", "tol")}, "problem": describe(p)})
             chk.count(n=1); chk.hist("case", c.split(" ", 1)[0])
     # the generators construct well-posed problems: if most of them do not yield a usable fit the check would be vacuous
-    for kind in ("cp", "tucker", "plsr", "plsr_fit"):
+    for kind in ("cp", "tucker", "plsr", "plsr_fit", "plsr_conv", "cp_loop", "tucker_loop"):
         h = chk.cov["histograms"].get("fit_status_" + kind, {})
-        tried = sum(v for k, v in h.items() if k != "timeout-skipped")
+        tried = sum(v for k, v in h.items() if k not in ("timeout-skipped", "no-margin"))
         if tried >= 4 and 2 * h.get("ok", 0) < tried:
             chk.broken.append({"what": f"correspondence corr:C19 not exercised: only {h.get('ok', 0)} of {tried} well-posed {kind} problems gave a finite, well-conditioned fit",
                                "detail": h})
@@ -607,6 +743,9 @@ def run(chk):
                        "converged fits and fits stopped after 1-3 passes): X_mean_, transform(X), transform(X_train, Y_train)[1], predict from the fitted attributes -> model in 70-bit binary fixed point vs implementation (1e-9); "
                        "whole CP_PLSR.fit with pinned pass counts (tol=0: n_iter_max in 1-4 resp. up to 30 in thorough; tol=1e300: stops after pass 2), samples 3-7, 1-3 components, "
                        "initialize_cp / lstsq answers recorded from the implementation -> per-component loadings, X/Y scores, Y loadings of the model (fixed point) vs implementation (1e-8); "
+                       "the same run to convergence (n_iter_max=100) with a tolerance placed by a pilot in a gap of the observed score movements, compared where the model's stopping decisions have a 1.25 margin; "
+                       "the regressors' fit loop: tape of iterates from runs with n_iter_max=1..6 (tol=-1), then a run that never stops / stops from the third pass / stops at a later pass with a margin-chosen tol: "
+                       "model loop (CP: concrete ridge blocks, every T.solve answer from pass 2 on certified by A x = B at 1e-7 against the model's design matrices; Tucker: passes played back) must store the implementation's weight_tensor_ / factors (1e-8); "
                        "a case is non-trivial if the fit succeeded with finite weights; distinct key = (regressor, X shape, y shape, rank)")
     for b in broken:
         chk.broken.append({"what": "correspondence corr:C19 shard not evaluated", "detail": b})
@@ -618,7 +757,8 @@ def run(chk):
                        "size-0 modes are outside the model"]
     chk.trusted = ["cp_to_tensor / tucker_to_tensor / multi_mode_dot / outer are modelled by their entrywise meaning (their code-level models are C02/C03); tied to the code by this run's Q cases",
                    "CP_PLSR: the SVD inside initialize_cp (a function of Z), lstsq (modelled as a function of the normal-equation data T'T, T'u: true of the minimum-norm solution in exact arithmetic) and sqrt are black boxes of the model; their answers are recorded from the implementation for execution",
-                   "the ridge block updates of CPRegressor / TuckerRegressor (C07) are an arbitrary function `sweep` in the model of the fit loop; the loop structure itself is not executed against the implementation, its conclusion (stored attributes come from one iterate) is what the predicates test",
+                   "T.solve inside the CP ridge blocks is a black box whose recorded answers are certified (A x = B); the first pass of CPRegressor.fit (random initial factors) and the Tucker block updates are played back from the tape without certificate",
+                   "the code-level models of cp_to_tensor / tucker_to_tensor linked by C19_*_code_level are those of property C03 (Model/Factorized.v, tied to the code by C03's correspondence)",
                    "fixed-point execution (70 fractional bits) of the CP_PLSR model: rounding 1e-21 per operation, compared at 1e-9 / 1e-8"]
     return chk.finish({})
 
